@@ -39,7 +39,7 @@ def max_kids(forest):
 
 def cases(tier, rnd):
     out = []
-    n_rand = 150 if tier == "quick" else 600
+    n_rand = 400 if tier == "quick" else 1500
     for i in range(n_rand):
         big = tier == "thorough" and i % 4 == 0
         n = rnd.randint(1, 12 if big else 7)
